@@ -283,11 +283,49 @@ func (s *msim[K]) step(i int, fromMap func(*msim[K], *mver[K], int)) {
 		tm := clone(v.model)
 		s.logf("tx = %s.Txn()", v.name)
 		rounds := 1 + s.rng.IntN(3)
+		type pendSeq struct {
+			name string
+			seq  iter.Seq2[K, uint64]
+			want []kv
+		}
+		var pend []pendSeq
+		drain := func() {
+			for _, p := range pend {
+				if got := collect2(s.ky, p.seq); !eqkv(got, p.want) && !s.failed {
+					s.violate("maptxn/retained-seq", "%s obtained from the transaction and ranged after later writes yields %v, at the time of the call the transaction held %v", p.name, got, p.want)
+				}
+			}
+			pend = nil
+		}
 		for r := 0; r < rounds && !s.failed; r++ {
 			nops := s.rng.IntN(6)
 			for j := 0; j < nops; j++ {
 				k := s.genKey()
-				switch s.rng.IntN(5) {
+				switch s.rng.IntN(6) {
+				case 5:
+					// a single sequence taken straight after the writes (no other query in between) and ranged only after later ones
+					all := sorted(tm)
+					if s.rng.IntN(3) == 0 {
+						k = ""
+					}
+					switch s.rng.IntN(3) {
+					case 0:
+						s.logf("retain tx.LowerBound(%q)", k)
+						i := sort.Search(len(all), func(i int) bool { return all[i].K >= k })
+						pend = append(pend, pendSeq{fmt.Sprintf("tx.LowerBound(%q)", k), tx.LowerBound(s.ky.to(k)), append([]kv(nil), all[i:]...)})
+					case 1:
+						s.logf("retain tx.Prefix(%q)", k)
+						var want []kv
+						for _, e := range all {
+							if strings.HasPrefix(e.K, k) {
+								want = append(want, e)
+							}
+						}
+						pend = append(pend, pendSeq{fmt.Sprintf("tx.Prefix(%q)", k), tx.Prefix(s.ky.to(k)), want})
+					default:
+						s.logf("retain tx.All()")
+						pend = append(pend, pendSeq{"tx.All()", tx.All(), all})
+					}
 				case 0, 1:
 					s.val++
 					s.logf("tx.Set(%q,%d)", k, s.val)
@@ -309,9 +347,13 @@ func (s *msim[K]) step(i int, fromMap func(*msim[K], *mver[K], int)) {
 					s.verify("tx", tx, tm, 1)
 				}
 			}
+			if s.rng.IntN(2) == 0 {
+				drain()
+			}
 			cname := fmt.Sprintf("%s.c%d", name, r)
 			s.logf("%s = tx.Commit()", cname)
 			nm := tx.Commit()
+			drain()
 			s.verify(cname, nm, tm, 2)
 			s.add(cname, nm, tm)
 			if r+1 < rounds && s.rng.IntN(2) == 0 {
